@@ -329,6 +329,46 @@ def run_values(ctx, n):
     return stats.get('PVAgree', 0) + stats.get('PVAgreeReject', 0) + len(groups) - bad
 
 
+def run_queries(ctx, n):
+    """the query grammar: (1) Model/QueryParse.v against parser.rs `access` through the hook `paccess` - the parsed query, match_all,
+    stop offset and nom error class on every head / part / index / key spelling alone and with tails, generated queries with layout
+    and comments at every position, broken brackets and one-character mutations; (2) the statement itself on the implementation:
+    several spellings of one abstract query (.n / [n], leading zeros, bare / quoted / bracketed keys, some / SOME, this / THIS,
+    layout around every part) give the same parsed query."""
+    from .. import qparse
+    texts = qparse.corpus(ctx.seed, n)
+    out = qparse.run(texts, ctx.wd, 'c14qp')
+    stats = {}
+    for t, v, r in out:
+        stats[v] = stats.get(v, 0) + 1
+        if v in ('PAAgree', 'PAAgreeReject', 'PANotModelled'):
+            continue
+        ctx.failing('query %r: `access` answers %s, the model of the query grammar says otherwise (%s)' % (t[:80], json.dumps(r)[:160], v),
+                    {'class': 'query-grammar-correspondence', 'text': t, 'impl': r, 'verdict': v}, found=False)
+    groups = qparse.spelling_groups(ctx.seed, max(60, n // 8))
+    flat = [s for ss in groups for s in ss]
+    res = impl.run_ops_parallel([{'op': 'paccess', 'text': s} for s in flat], ctx.wd, 'c14qs')
+    k, bad = 0, 0
+    for ss in groups:
+        rs = res[k:k + len(ss)]; k += len(ss)
+        vals = []
+        for s, r in zip(ss, rs):
+            rr = r.get('res')
+            if not rr or rr[0] != 'Ok':
+                ctx.failing('the spelling %r of a query is not accepted: %s' % (s[:100], json.dumps(rr)[:160]), {'class': 'query-spelling', 'spelling': s, 'plain': ss[0], 'impl': rr}, found=True)
+                bad += 1
+                vals = None
+                break
+            vals.append((json.dumps(rr[1], sort_keys=True), s.encode('utf-8')[rr[2]:]))
+        if vals and len(set(vals)) != 1:
+            ctx.failing('spellings of one query are read as different queries: %r' % (ss,), {'class': 'query-spelling', 'spellings': ss, 'queries': [v_[0] for v_ in vals]}, found=True)
+    ctx.coverage['query_texts'] = len(texts)
+    ctx.coverage['query_verdicts'] = stats
+    ctx.coverage['query_spelling_groups'] = len(groups)
+    ctx.coverage['evaluations'] += len(texts) + len(flat)
+    return stats.get('PAAgree', 0) + stats.get('PAAgreeReject', 0) + len(groups) - bad
+
+
 def run(ctx):
     ctx.build()
     pr = ctx.proofs('C14')
@@ -337,13 +377,14 @@ def run(ctx):
     n2 = run_semantic(ctx, progs)
     n3 = run_strings(ctx, 600 if thorough else 120)
     n3 += run_values(ctx, 6000 if thorough else 1500)
+    n3 += run_queries(ctx, 8000 if thorough else 2500)
     ctx.coverage['distinct_nontrivial'] = n1 + n2 + n3
     ctx.coverage['rule'] = ('generated programs printed under %d single-dimension spellings (exhaustive per token class) and random combinations; AST equality (locations removed) with the '
                             'default spelling; .n / [n] / leading this. / type block vs filter block / default rule compared on verdicts; random strings over an alphabet with both quote '
                             'characters, backslash, #, non-ASCII in both quote styles' % len(SINGLE))
     ctx.coverage['trusted_base'] = [
         'Coq 8.16.1 kernel (coqc), vm_compute; no axioms',
-        'Lex.v, ValueParse.v (modelled, not verified; tied by the hook parse_value_dump: value, stop offset, nom error class) + translator tools/gv/tables.py for the keyword tables; hooks ast_dump / lit_dump',
+        'Lex.v, ValueParse.v, QueryParse.v (modelled, not verified; tied by the hooks parse_value_dump / parse_access_dump: value / query, stop offset, nom error class) + translator tools/gv/tables.py for the keyword tables; hooks ast_dump / lit_dump',
         'the pretty-printer of tools/gv/gen.py (a spelling the printer cannot produce is not exercised)',
     ]
     ctx.assumptions = ['the type-block equivalence is compared on templates whose Resources is a non-empty map of maps (otherwise the type block raises an error where the filter block FAILs: recorded in DESIGN.md)']
